@@ -15,11 +15,14 @@ impl<'a> VecOperator<'a> for UnpackStrings<'a> {
         if streaming {
             decoded.clear();
         }
-        for elem in self.iterator.as_mut().unwrap() {
+        let iterator = self.iterator.as_mut().unwrap();
+        for elem in iterator.by_ref() {
             decoded.push(elem);
-            if decoded.capacity() == decoded.len() { return Ok(()); }
+            if decoded.capacity() == decoded.len() { break; }
         }
-        self.has_more = false;
+        // When the batch is filled by the last string there is nothing more to come: another (empty) batch would
+        // make the other operators of the stage run past the end of their inputs.
+        self.has_more = iterator.has_more();
         Ok(())
     }
 
